@@ -195,6 +195,10 @@ def execute(case):
                     compare({'.index': b[:c]}, 'index cut to %d of %d bytes' % (c, len(b)), True)
                     if out.failures:
                         return done(out, nt)
+        if usable:
+            compare({'.index': old_format_index(usable[-1][0])}, 'the newest usable index in the old dictionary format', True)
+            if out.failures:
+                return done(out, nt)
         # leftover side files with stale content
         junk = bytes([case['junk']]) * 37
         old = snaps[0][0] if snaps else b''
@@ -207,7 +211,14 @@ def execute(case):
             return done(out, nt)
 
         # read-only: nothing changes, every write refused, same answers
-        dd = fresh(data, {'.index': usable[-1][0]} if usable and case['junk'] % 2 else None)
+        ro_index = None
+        if usable and case['junk'] % 4 in (1, 3):
+            ro_index = usable[-1][0]
+        elif usable and case['junk'] % 4 == 2:
+            # the index as an old release wrote it: one pickled dictionary {'index': {oid: pos}, 'pos': n}
+            ro_index = old_format_index(usable[-1][0])
+            out.label('read-only-with-old-format-index')
+        dd = fresh(data, {'.index': ro_index} if ro_index is not None else None)
         before = sha_dir(dd)
         out.evals += 1
         try:
@@ -245,6 +256,17 @@ def execute(case):
         if out.failures:
             return done(out, nt)
     return done(out, nt)
+
+
+def old_format_index(b):
+    import pickle
+    import tempfile
+    from ZODB.fsIndex import fsIndex
+    with tempfile.NamedTemporaryFile(dir='/dev/shm', suffix='.index') as f:
+        f.write(b)
+        f.flush()
+        info = fsIndex.load(f.name)
+    return pickle.dumps({'index': dict(info['index'].items()), 'pos': info['pos']}, 3)
 
 
 def voted_image(dd, junk):
